@@ -340,6 +340,9 @@ func genCase(t *rapid.T) (Case, map[string]bool) {
 			if int(g.Bits.CBase)+int(g.Bits.NStops) > 64 || int(g.Bits.NBase)+int(g.Bits.NStops) > 64 || g.Bits.NBase < 6 {
 				gs.l("gradient-base-wraps")
 			}
+			if g.ReservedRedBits {
+				gs.l("gradient-value-with-reserved-red-bits")
+			}
 			c.Ops = append(c.Ops, ops.OpSetCSel((g.Reg+adj)&63))
 			cSel = (g.Reg + adj) & 63
 			lastIncr = false
